@@ -45,6 +45,10 @@ CHECKS = {
    technique="TLA+ backoff schedule (fn/Backoff) and recovery property (prop/Recovery) as trace acceptors over an enumeration of link faults at byte offsets on live connections; pure backoff step checked against the spec operator over a grid",
    text="Every exchange of a session (TCP connect, Select.req, Select.rsp, inbound data primary, reply to an outbound primary, Linktest.req, Linktest.rsp, idle) is cut at byte offsets of its frame (every 3rd offset plus 0, 4 and the last in quick; every offset in thorough) by peer close, peer RST or a silent stall that only T6 / T7 / T8 / the write timeout / the linktest can detect, plus select rejection and 0..4 consecutive refused dials under three backoff configurations, on active and passive live hsmsss connections. TLC judges each recorded scenario with prop/Recovery: the broken session is left within the covering timer, an idle gap does not time out, dial gaps follow Backoff!Sleep(k) (floor -2 ms, ceiling +200 ms), exactly refused+1 dials, passive re-listens, a Selected session with a W round trip in both directions is reached, Reconnects() moves by exactly the successful re-dials, the reconnecting gauge is never negative / positive while dials are refused / zero after recovery, and nothing dials or listens after Close. The exported real nextBackoffDelay agrees with Backoff!Next on a 798-point grid.",
    note="Timers are scaled down (T5 60..200 ms); bounds are one-sided plus generous ceilings with measured-jitter slack. HSMS-SS transport only."),
+ "C10": dict(cat="model_checking", engine="lifecycle", design="§3.4, §4 C10",
+   technique="TLC exhaustive safety + liveness check of impl/Connection (Open/Close/reconnect/epoch/seal model); random and gate-forced concurrent API histories on live connections audited and judged by the TLA+ property module prop/Lifecycle (trace validation)",
+   text="impl/Connection.tla models hsms/connection_lifecycle.go + epoch.go + the transport seal with one action per critical section (lifeMu, double-open guard, reconnectGen fence, shutdown flag, supervisor react, reconnect loop labels, teardown/join). TLC checks for two concurrent callers and up to four operations: Close leaves no loop / live epoch / socket, nothing reconnects after Close, one live generation, Open-while-open changes nothing, a recovery path always exists, Close never waits on the environment, and under weak fairness every Close terminates. On the code, seeded random histories of 2..3 API goroutines (Open background/wait-selected with ctx, Close, W-bit and async sends, UpdateConfigOptions) run with real concurrency against a peer that connects, selects, stalls, drops, resets and refuses at random (active and passive, linktest on/off), plus gate-forced races (peer accepted exactly while Close runs via the verif gate tr.accepted; redundant Open while the reconnect loop backs off). After each history the harness audits the final Close (latency <= close timeout + slack, second Close identical, State()==NotConnected, every wrapped socket/listener closed, no dial/listen for 3xT5, no state notification, no goroutine with a go-secs frame in runtime.Stack), probes Open-while-open for side effects, requires the connection to get back to Selected once the peer behaves, and re-opens with a round trip. TLC judges every history with prop/Lifecycle.",
+   note="Trusted: prop/Lifecycle.tla, the wrapped net.Conn/net.Listener accounting of harness/peerkit, runtime.Stack for the goroutine audit (a runtime observation, not a model fact). Go's scheduler is sampled, not enumerated; gates force the two races named above. Finding F6 (Close blocked behind Open(wait)) was found by the model and fixed (6f99346). HSMS-SS transport only."),
 }
 
 NA = {
@@ -87,6 +91,8 @@ def main():
                serves_properties=["C06", "C09", "C20"], kind_free_text="TLC exhaustive model + scripted-peer histories judged by a TLA+ property module"),
           dict(name="recovery-e2e", path="spec/fn/Backoff.tla spec/prop/Recovery.tla spec/trace/OracleRecovery.tla harness/cmd/vh/recov.go",
                serves_properties=["C11"], kind_free_text="fault enumeration at byte offsets against a raw peer; TLA+ property module as acceptor"),
+          dict(name="lifecycle", path="spec/impl/Connection.tla spec/mc/MC_Connection*.cfg spec/prop/Lifecycle.tla spec/trace/OracleLifecycle.tla harness/cmd/vh/life.go",
+               serves_properties=["C10"], kind_free_text="TLC safety+liveness model; concurrent API histories with leak audit judged by a TLA+ property module"),
         ],
         checks=checks, not_applicable=na,
         notes="All checks rebuild the Go harness from /repo's working tree (-tags verif). Exit 2 = inconclusive (never a violation).")
